@@ -82,6 +82,9 @@ func runE6(p *Program, sp *Spec, c *Collector) {
 	for _, cs := range t.ConsumeReset {
 		runConsumeReset(p, c, cs)
 	}
+	for _, ns := range t.Nesting {
+		runNesting(p, sp, c, ns)
+	}
 }
 
 // ---------------------------------------------------------------------------------------------
@@ -1264,5 +1267,77 @@ func runConsumeReset(p *Program, c *Collector, cs ConsumeResetSpec) {
 		c.Ob(cs.Props, "E6.consume-reset", key, Violated, cs.What+": some path performs "+cs.Effect+" and returns without assigning "+cs.Value+" to "+cs.Reset+", so the pending state is consumed again by the next callback", p.FuncPos(fn), false)
 	default:
 		c.Ob(cs.Props, "E6.consume-reset", key, Discharged, cs.What+": every path that performs the effect also clears the pending state", p.FuncPos(fn), true)
+	}
+}
+
+
+// ---------------------------------------------------------------------------------------------
+// (h) nesting: a callback for a grammar rule that can contain itself (annotation -> elementValue -> annotation) fires for the
+// nested occurrences too, in the same listener state. A callback that records "the X of the enclosing declaration" must
+// therefore look at its parent (or keep a depth through the Exit callback); otherwise an annotation used as an argument is
+// recorded as an annotation of the class.
+
+type NestingSpec struct {
+	Props    []string `json:"props"`
+	Callback string   `json:"callback"` // function key of the Enter callback
+	Grammar  string   `json:"grammar"`
+	What     string   `json:"what"`
+}
+
+func runNesting(p *Program, sp *Spec, c *Collector, ns NestingSpec) {
+	fn := p.Func(ns.Callback)
+	g := sp.G[ns.Grammar]
+	if fn == nil || g == nil {
+		c.Anchor(ns.Props, "E6: nesting: %s / grammar %s does not resolve", ns.Callback, ns.Grammar)
+		return
+	}
+	_, rule, ok := callbackRule(fn.Name())
+	if !ok {
+		c.Anchor(ns.Props, "E6: nesting: %s is not a callback", ns.Callback)
+		return
+	}
+	key := "nesting:" + ns.Callback
+	// is the rule reachable from one of its own children?
+	recursive := false
+	via := ""
+	for child := range g.Refs(rule) {
+		if g.ReachableWithout(child, nil, nil)[rule] {
+			recursive = true
+			via = child
+		}
+	}
+	if !recursive {
+		c.Ob(ns.Props, "E6.nesting", key, Discharged, "rule "+rule+" cannot contain itself: every occurrence is an outermost one", p.FuncPos(fn), true)
+		return
+	}
+	// parent discrimination: a type test on ctx.GetParent()
+	sf := newSymFn(p, fn, 0)
+	tested := false
+	for _, b := range fn.Blocks {
+		for _, in := range b.Instrs {
+			var operand ssa.Value
+			switch x := in.(type) {
+			case *ssa.TypeAssert:
+				if x.CommaOk {
+					operand = x.X
+				}
+			case *ssa.Call:
+				if callee := x.Call.StaticCallee(); callee != nil && fullFuncName(callee) == "reflect.TypeOf" && len(x.Call.Args) == 1 {
+					operand = x.Call.Args[0]
+				}
+			}
+			if operand == nil {
+				continue
+			}
+			t := sf.val(operand)
+			if n, ok := invokeName(t); ok && n == "GetParent" && len(t.Kids) == 1 && t.Kids[0].Op == "param" {
+				tested = true
+			}
+		}
+	}
+	if tested {
+		c.Ob(ns.Props, "E6.nesting", key, Discharged, "rule "+rule+" can occur inside itself (through "+via+"); the callback inspects the type of its parent", p.FuncPos(fn), true)
+	} else {
+		c.Ob(ns.Props, "E6.nesting", key, Violated, ns.What+": rule "+rule+" can occur inside itself (through "+via+"), and the callback records every occurrence alike without looking at its parent: a nested occurrence is recorded as if it stood on the declaration", p.FuncPos(fn), false)
 	}
 }
